@@ -452,7 +452,7 @@ func TestRandomStreams(t *testing.T) {
 // of the stream and after k good frames.
 func TestEverySingleCut(t *testing.T) {
 	env := rec.Env()
-	nstreams := env.Pick(40, 2000)
+	nstreams := env.Pick(40, 400)
 	idx := 0
 	for si := 0; si < nstreams; si++ {
 		if !env.Mine(si) {
